@@ -14,6 +14,8 @@ use proptest::prelude::*;
 use serde::{Deserialize, Serialize};
 use std::time::Duration;
 
+mod pair;
+
 #[derive(Animate, Component, Clone, Debug, Default, PartialEq)]
 pub struct A {
     #[animate]
@@ -684,6 +686,19 @@ fn c18(run: &mut Run) {
     for (l, f) in [("reached_ended", 0.3), ("frame_skipped_a_phase", 0.05), ("zero_frame", 0.5), ("disabled_frames", 0.1), ("reset_used", 0.2), ("infinite", 0.1), ("exact_end_decision", 0.3), ("playing_evaluated", 0.4), ("frame_without_target_component", 0.1), ("frame_landing_next_to_the_end", 0.2)] {
         run.require_label("c18_schedule", l, f);
     }
+    run.assume("two-entity part: only one animated component type, so chain -> select -> animate is totally ordered and two Apps fed the same frames are deterministic; what is compared is everything observable about the entity under test (state, position, enabled, component bits, events naming it)");
+    let cases = run.tier.pick(20_000, 600_000);
+    run.prop(
+        "c18_two_entities",
+        "proptest metamorphic (non-interference): the entity under test runs its C18 schedule alone in one App and next to a second, fully active animated entity (own timeline incl. merged / none, own enable / disable / reset / set_timeline / seek / target removal between the shared frames, spawned before or after) in another; state, position, enabled flag, component bits and the events naming the entity must agree frame by frame, and the companion gets exactly one event per state change of its own; non-trivial = the companion changed state in some frame and the entity under test reached Ended",
+        &pair::C18_PAIR_LABELS,
+        (c18_strategy(), c18_strategy(), any::<bool>()).prop_map(|(x, y, y_first)| pair::Pair { x, y, y_first }),
+        cases,
+        pair::c18_pair_judge,
+    );
+    for (l, f) in [("companion_changed_state_in_a_frame", 0.5), ("companion_ended", 0.2), ("x_ended", 0.2), ("both_changed_state_in_the_same_frame", 0.2), ("companion_operated_on_between_frames", 0.3)] {
+        run.require_label("c18_two_entities", l, f);
+    }
 }
 
 // =============================================================================================
@@ -1055,6 +1070,20 @@ fn c19(run: &mut Run) {
     );
     for (l, f) in [("key_change_mid_flight", 0.3), ("chain_fired", 0.05), ("end_without_chain_entry", 0.05), ("other_animator_ended", 0.05), ("key_set_in_gap_after_end", 0.02), ("same_key_reassigned", 0.2), ("key_without_timeline", 0.2)] {
         run.require_label("c19_selector_chain", l, f);
+    }
+    run.assume("two-entity part: only component type A (no Animator<B>), so chain -> select -> animate is totally ordered and two Apps fed the same frames are deterministic");
+    let cases = run.tier.pick(20_000, 600_000);
+    let one = || c19_strategy().prop_map(|mut c| { c.with_b = None; c });
+    run.prop(
+        "c19_two_entities",
+        "proptest metamorphic (non-interference): a selector-governed entity runs its key / frame history alone in one App and next to a second selector-governed entity of the same key and component types (own timelines, own chain, own key assignments between the shared frames, spawned before or after) in another; animator state, position, component bits, selector key and events naming the entity must agree frame by frame - a key change, an end or a chain step of one entity never moves the other; non-trivial = the companion changed state and the entity under test ended or changed key mid-flight",
+        &pair::C19_PAIR_LABELS,
+        (one(), one(), any::<bool>()).prop_map(|(x, y, y_first)| pair::Pair { x, y, y_first }),
+        cases,
+        pair::c19_pair_judge,
+    );
+    for (l, f) in [("companion_changed_state_in_a_frame", 0.5), ("companion_ended", 0.2), ("x_ended", 0.2), ("companion_key_assigned_between_frames", 0.3), ("x_key_moved_by_its_chain", 0.03), ("companion_key_moved_by_its_chain", 0.03), ("companion_ended_while_x_rests_ended", 0.03)] {
+        run.require_label("c19_two_entities", l, f);
     }
 }
 
